@@ -73,6 +73,10 @@ def gen_num(rng):
         fp = ''.join(rng.choice('0123456789') for _ in range(k))
         if len(ip) + len(fp) > 30:
             fp = fp[:2]
+    if rng.random() < 0.12:
+        # magnitudes below 1e-6 with one to three significant digits: the number library prints them in scientific form (-1E-7, 1.23E-9) and the
+        # service has to turn that into plain text again (seeded change C18_i: the sign was lost in one branch of that conversion)
+        ip, fp = '0', '0' * rng.choice([5, 6, 7, 8, 10, 15, 20]) + str(rng.choice([1, 5, 9, 12, 123, 10, 100]))
     if neg and ip.strip('0') == '' and fp.strip('0') == '':
         neg = False
     return ('n', neg, ip, fp)
@@ -151,6 +155,34 @@ def from_canon(x, like=None):
         return ('c', out)
     kind = like[1] if (like and not isinstance(like, bool) and like[0] == 'o') else 0
     return ('o', kind, x['o'])
+
+
+def num_mismatch(v, vr):
+    """the first number of the requested value v that the implementation holds / prints as ANOTHER number (vr is read back through the number's own
+    Display: a slip there would otherwise sit on both sides of the comparison); shapes that differ are not this function's subject"""
+    from decimal import Decimal
+    if v is None or vr is None or isinstance(v, bool) or isinstance(vr, bool):
+        return None
+    if v[0] == 'n' and vr[0] == 'n':
+        a = Decimal(('-' if v[1] else '') + v[2] + ('.' + v[3] if v[3] else ''))
+        try:
+            b = Decimal(('-' if vr[1] else '') + vr[2] + ('.' + vr[3] if vr[3] else ''))
+        except Exception:
+            return (str(a), repr(vr))
+        return None if a == b else (str(a), str(b))
+    if v[0] == 'l' and vr[0] == 'l' and len(v[1]) == len(vr[1]):
+        for x, y in zip(v[1], vr[1]):
+            m = num_mismatch(x, y)
+            if m:
+                return m
+    if v[0] == 'c' and vr[0] == 'c':
+        d = dict(vr[1])
+        for k, x in v[1]:
+            if k in d:
+                m = num_mismatch(x, d[k])
+                if m:
+                    return m
+    return None
 
 
 def coq_text(s):
@@ -1122,6 +1154,10 @@ def run(ctx):
         ctx.corr_checked += 1
         value_kinds(vr, kinds)
         case = {'value': to_req(v), 'feel': feel_value(v)[:300]}
+        nm = num_mismatch(v, vr)
+        if nm:
+            ctx.violation('the number %s is printed as %s (plain text of a number denotes exactly its value)' % nm, case, impl=nm[1], model=nm[0])
+            continue
         if not has_other(v) and vr != v and len(ctx.notes) < 3:
             ctx.notes.append('value built differently from the request: %s' % jd(case)[:200])
         ok = check_render_case(ctx, vr, r['json'], mj, md, case, 'Value::jsonify')
@@ -1224,6 +1260,10 @@ def live_values(ctx, svc, kinds):
             ctx.corr_checked += 1
             value_kinds(vr, kinds)
             case = {'decision_logic': e[:400], 'request': 'POST /evaluate/consts/kN'}
+            nm = num_mismatch(v, vr)
+            if nm:
+                ctx.violation('the number %s written in a decision\'s logic is printed as %s' % nm, case, impl=nm[1], model=nm[0])
+                continue
             if resp[0] == 'transport':
                 ctx.violation('no answer to an evaluation: %s' % resp[1], case)
                 continue
